@@ -203,6 +203,20 @@ macro_rules! float_checks {
                 let dg = Deg::from(Rad(a)).0 as f64;
                 let want = a as f64 * (180.0 / PI64);
                 ensure!(((dg - want) / want).abs() <= 4.0 * EPS, "rad-to-deg-factor", "Deg::from(Rad({:e})) = {:e}, expected a*180/pi = {:e}", a, dg, want);
+                // at the bottom of the range (subnormal angles, a few units of the smallest positive number up to 2^22 of
+                // them) a relative bound means nothing, but each conversion is still one correctly rounded multiplication:
+                // within one unit of a * 180/pi resp. a * pi/180, and radians -> degrees -> radians lands within a unit of a
+                {
+                    let unit = F::from_bits(1) as f64;
+                    let t = F::from_bits(d.int(1, 1 << 22) as _) * if d.bool() { 1.0 } else { -1.0 };
+                    let t64 = t as f64;
+                    let dg = Deg::from(Rad(t)).0 as f64;
+                    ensure!((dg - t64 * (180.0 / PI64)).abs() <= 1.0 * unit + 4.0 * EPS * dg.abs(), "rad-to-deg-subnormal", "Deg::from(Rad({:e})) = {:e}, a*180/pi = {:e} ({} units of the smallest subnormal)", t, dg, t64 * (180.0 / PI64), (t64 / unit).abs());
+                    let rd = Rad::from(Deg(t)).0 as f64;
+                    ensure!((rd - t64 * (PI64 / 180.0)).abs() <= 1.0 * unit + 4.0 * EPS * rd.abs(), "deg-to-rad-subnormal", "Rad::from(Deg({:e})) = {:e}, a*pi/180 = {:e}", t, rd, t64 * (PI64 / 180.0));
+                    let back = Rad::from(Deg::from(Rad(t))).0 as f64;
+                    ensure!((back - t64).abs() <= 1.0 * unit, "rad-deg-rad-subnormal", "Rad({:e}) -> Deg -> Rad = {:e}: off by {} units of the smallest subnormal", t, back, ((back - t64) / unit).abs());
+                }
                 // full turns
                 let rt = Rad::<F>::full_turn().0 as f64;
                 ensure!((rt - 2.0 * PI64).abs() <= 4.0 * EPS * rt, "rad-full-turn", "Rad::full_turn() = {}", rt);
@@ -449,8 +463,8 @@ pub fn property() -> Property {
     add!("modular-Rad-Q", "Q", exact_rad, 6000, 400_000, 24, PAIRS, "a != b and a not a whole number of turns");
     add!("normalize-f64", "f64", f64c::normalize, 20000, 2_000_000, 12, NORM, "any non-zero finite value; classes raw-bits/tiny-negative/turn-multiple/huge/subnormal required");
     add!("normalize-f32", "f32", f32c::normalize, 20000, 2_000_000, 12, NORM, "any non-zero finite value; classes raw-bits/tiny-negative/turn-multiple/huge/subnormal required");
-    add!("convert-f64", "f64", f64c::convert, 10000, 1_000_000, 16, &[("small", 100), ("large", 100), ("near-max", 50)], "every generated magnitude (log-uniform over the non-over/underflowing range)");
-    add!("convert-f32", "f32", f32c::convert, 10000, 1_000_000, 16, &[("small", 100), ("large", 100), ("near-max", 50)], "every generated magnitude (log-uniform over the non-over/underflowing range)");
+    add!("convert-f64", "f64", f64c::convert, 10000, 1_000_000, 24, &[("small", 100), ("large", 100), ("near-max", 50)], "every generated magnitude (log-uniform over the non-over/underflowing range; plus a subnormal angle for the single conversions)");
+    add!("convert-f32", "f32", f32c::convert, 10000, 1_000_000, 24, &[("small", 100), ("large", 100), ("near-max", 50)], "every generated magnitude (log-uniform over the non-over/underflowing range; plus a subnormal angle for the single conversions)");
     add!("trig-f64", "f64", f64c::trig, 10000, 1_000_000, 12, &[("regular", 300), ("named-angle", 100)], "|x| > 1e-3 rad");
     add!("trig-f32", "f32", f32c::trig, 10000, 1_000_000, 12, &[("regular", 300), ("named-angle", 100)], "|x| > 1e-3 rad");
     add!("inverse-f64", "f64", f64c::inverse, 8000, 500_000, 24, &[("rad", 200), ("deg", 200)], "every generated ratio / quadrant");
